@@ -320,6 +320,34 @@ class ManifestTopLevel(Target):
         return [('leftmost-path-segment-of-every-key', list(out.value) == [k.split('/', 1)[0] for k in st.keys])]
 
 
+class AppDepName(Target):
+    """FlowIR.application_dependency_to_name: the folder an application dependency is linked as -- leading path and
+    trailing '/' removed, exactly the last extension dropped, lower-cased.  The stem is an arbitrary atom; dots inside the
+    name (versions) belong to the name."""
+    prop = 'C09'
+    name = 'FlowIR.application_dependency_to_name'
+    file = F
+    qualname = 'FlowIR.application_dependency_to_name'
+    assumptions = ['application dependency ids: 12 concrete spellings (relative / absolute, with / without extension, '
+                   'dotted version in the name, trailing slash): bounded in the vocabulary']
+    POOL = [('MyApp.application', 'myapp'), ('myapp', 'myapp'), ('/abs/path/Tools.pkg', 'tools'), ('/abs/tools', 'tools'),
+            ('Solver-1.2.application', 'solver-1.2'), ('/opt/apps/Solver-1.2.application', 'solver-1.2'),
+            ('/opt/apps/Solver-1.2.application/', 'solver-1.2'), ('a.b.c.d', 'a.b.c'), ('/x.y/Name.ext', 'name'),
+            ('Viz.application/', 'viz'), ('/x/y.z/plain', 'plain'), ('UPPER.Case.App', 'upper.case')]
+
+    def setup(self, c):
+        i = c.choice('dependency', len(self.POOL))
+        return State(args=[flowir_cls(c), self.POOL[i][0]], want=self.POOL[i][1])
+
+    def real_function(self):
+        return FlowIR.application_dependency_to_name.__func__
+
+    def ensures(self, c, st, out):
+        if out.kind == 'raise':
+            return [('no-exception', False)]
+        return [('folder-name-without-path-and-last-extension-lowercase', out.value == st.want)]
+
+
 class ExpandList(Base):
     """FlowIR.expand_component_references: the list form used at load time -- every entry expanded exactly like
     expand_potential_component_reference does (component references to their absolute spelling in the context stage;
@@ -576,7 +604,7 @@ class DiscoverReferencesBounded:
         return fn
 
 
-TARGETS = [CompileReference(), ParsePrint(), Classify(), NonComponentForms(), Expand(), ExpandIdempotent(), ManifestTopLevel(), ExpandList(), DataReferenceClass(),
+TARGETS = [CompileReference(), ParsePrint(), Classify(), NonComponentForms(), Expand(), ExpandIdempotent(), ManifestTopLevel(), AppDepName(), ExpandList(), DataReferenceClass(),
            ComponentIdentifierClass()]
 LEMMAS = []
 BOUNDED = [ReferenceClassesBounded(), DiscoverReferencesBounded()]
